@@ -186,9 +186,11 @@ def floatnumber : List Nat → List (List Nat) := alt pointfloat exponentfloat
 def imagnumber : List Nat → List (List Nat) :=
   seq (alt floatnumber digitpart) (lit (fun c => c = 106 || c = 74))
 
+/-- all remainders after one numeric literal at the start of the input -/
+def number : List Nat → List (List Nat) := alt integer (alt floatnumber imagnumber)
+
 /-- the whole text is one numeric literal -/
-def isNumber (cs : List Nat) : Bool :=
-  ((alt integer (alt floatnumber imagnumber)) cs).any (·.isEmpty)
+def isNumber (cs : List Nat) : Bool := (number cs).any (·.isEmpty)
 
 /-! ## characters, strings -/
 
